@@ -60,6 +60,24 @@ class AstModel:
                     tok = args[0]
                 return Obj(token=tok, children=[], __kind__='node')
             raise OutOfFragment('make_shared<%s>' % targ)
+        if cs.startswith('ccl::rslang::TokenData::') and 'obj' in n and cs.split('::')[-1] in ('IsTuple', 'ToTuple', 'IsInt', 'IsText', 'HasValue'):
+            o = it.eval(fn, S[n['obj']], env)               # token data is carried as a plain value: None, an int, a text, a list of indices
+            while isinstance(o, tuple) and len(o) == 2 and o[0] == 'ptr':
+                o = o[1]
+            last = cs.split('::')[-1]
+            if isinstance(o, Obj) and o.get('__kind__') == 'tokendata' and 'indices' in o:
+                o = o['indices']
+            if isinstance(o, Obj):
+                return NOT_HANDLED
+            if last == 'IsTuple':
+                return isinstance(o, (list, tuple))
+            if last == 'ToTuple':
+                return list(o) if isinstance(o, (list, tuple)) else []
+            if last == 'IsInt':
+                return isinstance(o, int) and not isinstance(o, bool)
+            if last == 'IsText':
+                return isinstance(o, (bytes, bytearray, str))
+            return o is not None
         if cs.endswith('ParserState::OnError'):
             args = [it.eval(fn, S[a], env) for a in n.get('args', [])]
             self.errors.append(args[0] if args else None)
